@@ -49,7 +49,7 @@ def build_batch(run, seed, p):
         bad = set()
         for f, msgs in errs.items():
             base = os.path.basename(f or "")
-            if base.startswith("m") and base.endswith(".rs") and base[1:-3].isdigit():
+            if base[:1] in ("m", "g") and base.endswith(".rs") and base[1:-3].isdigit():
                 bad.add(base[:-3])
                 rejected[base[:-3]] = msgs[:2]
             else:
@@ -126,7 +126,7 @@ def c03(run):
     replay_ids = None
     if run.replay:
         replay_ids = set(json.load(open(run.replay)).get("case", {}).get("ids", []))
-    chosen = [d for k, d in enumerate(defs) if (d["id"][0] in "rg") or k % step == 0]
+    chosen = [d for k, d in enumerate(defs) if d.get("lint", True) and ((d["id"][0] in "rg") or k % step == 0)]
     if replay_ids is not None:
         chosen = [d for d in defs if d["id"] in replay_ids or any(u in replay_ids for u in d.get("uses", []))]
         # groups need their traits
@@ -206,6 +206,72 @@ def c03(run):
     os.remove(defs_file)
 
 
+def c04(run):
+    """C04: layout oracles inside the program batches + determinism of the expansion across
+    fresh processes (fresh hash seeds) and crates."""
+    import gen_c03, hashlib
+    progbatch(run)
+    if run.replay:
+        return
+    exp = build_expander()
+    n_random, n_groups = (80, 24) if run.tier == "quick" else (800, 200)
+    defs = gen_c03.make_defs(run.seed, n_random, n_groups)
+    if run.tier == "quick":
+        defs = [d for k, d in enumerate(defs) if d["id"][0] in "rgx" or k % 9 == 0]
+    os.makedirs(common.WORK, exist_ok=True)
+    defs_file = os.path.join(common.WORK, f"c04-defs-{os.getpid()}.json")
+    json.dump(defs, open(defs_file, "w"))
+    nproc = 8 if run.tier == "quick" else 32
+    manifests = [os.path.join(common.WORK, "c03lint"), os.path.join(common.WORK, f"pb-{run.tier}-0"), os.path.join(common.REPO, "cglue")]
+    import subprocess
+    procs = []
+    for i in range(nproc):
+        out = os.path.join(common.WORK, f"c04-digest-{os.getpid()}-{i}.json")
+        env = dict(common.ENV)
+        md = manifests[i % len(manifests)]
+        if os.path.exists(os.path.join(md, "Cargo.toml")):
+            env["CARGO_MANIFEST_DIR"] = md
+        procs.append((out, md, subprocess.Popen([exp, "digest", defs_file, out], env=env, stdout=subprocess.DEVNULL, stderr=subprocess.DEVNULL)))
+    results = []
+    for out, md, pr in procs:
+        pr.wait(timeout=1800)
+        if not os.path.exists(out):
+            raise Infra("expander digest produced no output")
+        results.append((md, json.load(open(out)))); os.remove(out)
+    os.remove(defs_file)
+
+    def norm(v):
+        # the path by which the runtime crate is named depends on the expanding crate; it is not layout
+        t = json.dumps(v)
+        for pre in (":: cglue ::", "cglue ::", "crate ::"):
+            t = t.replace(pre, "$C::")
+        return t
+
+    viol, evals, nt, samples = [], 0, 0, []
+    ref = results[0][1]
+    for d in defs:
+        evals += 1
+        variants = {}
+        for md, r in results:
+            variants.setdefault(norm(r.get(d["id"])), []).append(md)
+        n_structs = len(ref.get(d["id"]) or []) if isinstance(ref.get(d["id"]), list) else 0
+        if n_structs >= 1:
+            nt += 1
+        if len(samples) < 3 and n_structs >= 2:
+            samples.append({"sub": "expansion-determinism", "case": {"id": d["id"], "src": d["src"][:300], "structs": [(s["name"], [f[0] for f in s["fields"]]) for s in ref[d["id"]][:4]]}})
+        if len(variants) > 1:
+            a, b = list(variants.items())[:2]
+            # first differing struct
+            la, lb = json.loads(a[0]), json.loads(b[0])
+            diff = next(((x, y) for x, y in zip(la, lb) if x != y), (la[:1], lb[:1])) if isinstance(la, list) and isinstance(lb, list) else (la, lb)
+            viol.append({"sub": "expansion-determinism", "key": "C04:nondeterministic-layout",
+                         "what": f"definition {d['id']} ({d.get('label')}): {len(variants)} different struct/field lists over {nproc} fresh processes; e.g. {json.dumps(diff)[:500]}",
+                         "case": {"id": d["id"], "src": d["src"]}})
+            break
+    run.add_result({"_label": "determinism", "evaluations": evals, "distinct_nontrivial": nt, "samples": samples, "violations": viol, "classes": {"determinism:definitions": evals, "determinism:processes": nproc}, "known_seen": {},
+                    "rule": f"each definition (enumerated single-method traits, random traits, random groups incl. groups with built-in external traits) is expanded by /repo's generator in {nproc} fresh processes (fresh RandomState) under three different expanding crates; the ordered list (struct name, [(field name, field type)]) of every repr(C) struct must be identical (the path prefix naming the runtime crate normalised). Non-trivial = the expansion contains at least one repr(C) struct"})
+
+
 def c08(run):
     import gen_c08
     d = gen_c08.make(run.tier)
@@ -226,6 +292,7 @@ def c09(run):
 
 PROPS = {
     "C03": c03,
+    "C04": c04,
     "C08": c08,
     "C09": c09,
     "C01": progbatch,
